@@ -72,7 +72,15 @@ Section Naming.
   Definition is_string (d : details) : bool := match d with DString => true | _ => false end.
   Definition is_jsonvalue (d : details) : bool := match d with DJsonValue => true | _ => false end.
 
-  (* structs.rs:336-418.  [d] is the entry of the property type, looked up by the caller
+  (* structs.rs `unboxed_details`: cycle breaking may have re-pointed the property at a Box<T>;
+     the attributes are chosen by what is inside ONE Box (an unresolved inner id keeps the Box) *)
+  Definition unboxed (T : space) (d : details) : details :=
+    match d with
+    | DBox t => match get_det T t with Some i => i | None => d end
+    | _ => d
+    end.
+
+  (* structs.rs:336-430.  [d] is the entry of the property type, looked up by the caller
      (type_entry.rs:1130, `.unwrap()`). *)
   Definition generate_serde_attr (T : space) (type_name : ustring) (p : prop) (d : details)
     : bres (list sopt * dfun) :=
@@ -81,7 +89,7 @@ Section Naming.
                   | RFlatten => [SFlatten]
                   | RNone => []
                   end in
-    match p_state p, d with
+    match p_state p, unboxed T d with
     | POptional, DOption _ =>
         Done (naming ++ [SDefault; SSkipIf (us "::std::option::Option::is_none")], DFDefault)
     | POptional, DVec _ =>
@@ -250,8 +258,10 @@ Section Builder.
     | Some SDefault => Some (default_of (f_ty f))
     | Some (SDefaultFn p) => Some (call_fn p)
     | _ =>
-        match get_det T (f_ty f) with
-        | Some (DOption _) => Some (default_of (f_ty f))   (* Option::<T>::default() = None *)
+        (* missing_field: Option<T> (also behind a Box: Box<T>::deserialize forwards) yields None,
+           which is the type's Default::default() *)
+        match option_map (unboxed T) (get_det T (f_ty f)) with
+        | Some (DOption _) => Some (default_of (f_ty f))
         | _ => None
         end
     end.
